@@ -122,20 +122,15 @@ end
 
 def printModes : List Nat := [0, 16, 32, 64, 128].flatMap fun m => [m, m + 4]
 
-def errsTok (es : List VErr) : String := ";".intercalate (es.map (·.tok))
-
 /-- the observation tokens of validation number `i` -/
-def observe (X : SchemaX) (o : VOpts) (i : Nat) (r : VResult) : List String :=
+def observe (X : SchemaX) (o : VOpts) (i : Nat) (r : VResult) (v : Verdict) : List String :=
   let S := X.base
   let si := toString i
-  if !r.errs.isEmpty then
-    ["E" ++ si ++ "=" ++ errsTok (if o.multiError then r.errs else r.errs.take 1)]
+  if !v.errs.isEmpty then ["E" ++ si ++ "=" ++ ";".intercalate v.errs]
   else
     let bits := isDefaultBitsL S r.tree
     ["T" ++ si ++ "=" ++ dumpTok r.tree,
-     "D" ++ si ++ "=" ++ (match valDiff S r.evs with
-        | some d => dumpTok (Diff.stripNpL S d)
-        | none => "MergeRefused"),
+     "D" ++ si ++ "=" ++ dumpTok (Diff.stripNpL S v.diff),
      "F" ++ si ++ "=" ++ (if bits.isEmpty then "-" else bits)]
     ++ printModes.map fun m => "W" ++ si ++ "." ++ toString m ++ "=" ++ dumpTok (printedL S (POpts.ofNat m) r.tree)
 
@@ -154,7 +149,8 @@ def runHist (X : SchemaX) (o : VOpts) : (steps : List Step) → (k vi : Nat) →
       | none => ["BadStep" ++ toString k]
     | .validate =>
       let r := validate X o t
-      let obs := observe X o vi r
-      if r.errs.isEmpty then obs ++ runHist X o rest (k + 1) (vi + 1) r.tree else obs
+      let v := judge X.base o.multiError r.log
+      let obs := observe X o vi r v
+      if v.errs.isEmpty then obs ++ runHist X o rest (k + 1) (vi + 1) r.tree else obs
 
 end LyModel.Valid
